@@ -26,6 +26,9 @@ func main() {
 			os.Exit(2)
 		}
 		os.Exit(explain(os.Args[2]))
+	case "renames", "params":
+		// development aid: mechanical renamings applied in memory; every report is a false alarm
+		os.Exit(refactorTest(os.Args[1], os.Args[2:]))
 	case "mutants":
 		// development aid: run the overlay self-check of one property and print it
 		p := props[os.Args[2]]
